@@ -1,17 +1,191 @@
 /-
   C01 — any source text is either executed or rejected with an error; never a crash.
-  Property theorems: the operators of the model never reach a C-level hazard (first installment).
+
+  Property theorems: the operators of the model (Model/Ops.lean: the transcription of the `value()` methods of
+  blocc/operator/op_*.cpp) never reach a C-level hazard, for every operator and EVERY operand value — all nulls,
+  typed nulls, tables, tuples, objects, every Int64, every byte string —, and neither does any expression tree
+  built from them. Helper lemmas: Proofs/Lemmas/OpsCases.lean.
+
+  The only hypothesis is the representation invariant `Val.tabOk` ("a table value carries a table type, level ≥ 1"),
+  which every `bloc::Value` has by construction and which `Val` does not enforce; `evalBin_hazard_witness` shows
+  that the model does reach a hazard on an ill-formed value, so the hypothesis is exactly what is needed.
 -/
-import BlocV.Model.Ops
+import BlocV.Proofs.Lemmas.OpsCases
+import BlocV.Proofs.Lemmas.BuiltinCases
 
 namespace BlocV.C01
 open BlocV
 
 /-- `+x` never reaches a hazard: it returns the operand or raises INV_EXPRESSION. -/
-theorem pos_no_hazard (a : Val) : (evalUn .pos a).isHazard = false := by
-  unfold evalUn
-  split
-  · rfl
-  · split <;> first | rfl | (rename_i heq _; exact absurd heq (by decide)) | (rename_i heq; exact absurd heq (by decide))
+theorem pos_no_hazard (a : Val) : (evalUn .pos a).isHazard = false := evalUn_no_hazard_all .pos a
+
+/-- Unary operators (`-x`, `+x`, `~x`, `not x`; op_neg/op_pos/op_not/op_bnot.cpp): for EVERY operand value the
+outcome is a value, INV_EXPRESSION, or an unmodelled complex cell — never a C-level hazard. No hypothesis at all:
+the unary operators test `isNull()` before touching the payload. -/
+theorem evalUn_no_hazard (op : UnOp) (a : Val) : (evalUn op a).isHazard = false := evalUn_no_hazard_all op a
+
+example : evalUn .neg (.int (-9223372036854775808)) = .ok (.int (-9223372036854775808)) := by rfl
+example : evalUn .not (.null Ty.none) = .ok (.null Ty.int) := rfl
+example : evalUn .bnot (.tab { major := .int, level := 1 } [] [.int 1]) = .err Gen.EXC_RT_INV_EXPRESSION := rfl
+
+/-- Binary operators (all 20: `+ - * / ** % & | ^ << >> == != < <= > >= and or xor`; op_*.cpp after the `fix:`
+commits for overflow, INT64_MIN / −1, shift range and integer power): for EVERY pair of well-formed operand values
+and either value of the aliasing flag, the outcome is a value, a BLOC runtime error or an unmodelled complex cell —
+never a C-level hazard (no null-pointer dereference through a typed accessor, no signed overflow, no SIGFPE, no
+undefined shift). -/
+theorem evalBin_no_hazard (op : BinOp) (a b : Val) (same : Bool) (ha : a.tabOk = true) (hb : b.tabOk = true) :
+    (evalBin op a b same).isHazard = false := by
+  cases op
+  case add => exact opAdd_no_hazard a b ha hb
+  case sub => exact arith_no_hazard Ty.num (fun x y => .ok (Num.isub x y)) (fun x y => .ok (Num.fsub x y)) true a b (fun _ _ => rfl) (fun _ _ => rfl) ha hb
+  case mul => exact arith_no_hazard Ty.num (fun x y => .ok (Num.imul x y)) (fun x y => .ok (Num.fmul x y)) true a b (fun _ _ => rfl) (fun _ _ => rfl) ha hb
+  case div => exact arith_no_hazard Ty.num Num.idiv fdivChecked true a b idiv_no_hazard fdivChecked_no_hazard ha hb
+  case exp => exact arith_no_hazard Ty.num Num.ipow (fun x y => .ok (Num.fpow x y)) true a b ipow_no_hazard (fun _ _ => rfl) ha hb
+  case mod => exact arith_no_hazard Ty.none Num.imod fmodChecked false a b imod_no_hazard fmodChecked_no_hazard ha hb
+  case and => exact bitwise_no_hazard _ a b ha hb
+  case ior => exact bitwise_no_hazard _ a b ha hb
+  case xor => exact bitwise_no_hazard _ a b ha hb
+  case pop => exact bitwise_no_hazard _ a b ha hb
+  case pus => exact bitwise_no_hazard _ a b ha hb
+  case eq => rcases opEq_total same a b with ⟨v, h, _⟩ | h <;> simp only [evalBin, h] <;> rfl
+  case ne => rcases opNe_total same a b with ⟨v, h, _⟩ | h <;> simp only [evalBin, h] <;> rfl
+  case lt => exact ordered_no_hazard _ _ _ a b ha hb
+  case le => exact ordered_no_hazard _ _ _ a b ha hb
+  case gt => exact ordered_no_hazard _ _ _ a b ha hb
+  case ge => exact ordered_no_hazard _ _ _ a b ha hb
+  case band => exact opBand_no_hazard a (fun _ => .ok b) rfl
+  case bior => exact opBior_no_hazard a (fun _ => .ok b) rfl
+  case bxor => exact opBxor_no_hazard a b
+
+example : evalBin .add (.int 9223372036854775807) (.int 1) = .ok (.int (-9223372036854775808)) := by rfl
+example : evalBin .div (.int (-9223372036854775808)) (.int (-1)) = .ok (.int (-9223372036854775808)) := by rfl
+example : evalBin .pop (.int 1) (.int 64) = .ok (.int 0) := by rfl
+example : evalBin .mod (.int 1) (.int 0) = .err Gen.EXC_RT_DIVIDE_BY_ZERO := by rfl
+example : evalBin .lt (.null Ty.int) (.str [97]) = .ok (.null Ty.bool) := rfl
+example : (Val.null Ty.int).tabOk = true ∧ (Val.tab { major := .int, level := 1 } [] [.int 1]).tabOk = true := ⟨rfl, rfl⟩
+
+/-- The hypothesis of `evalBin_no_hazard` cannot be dropped: on an ill-formed "table of level 0" — a value no
+`bloc::Value` can be — the model's typed accessor falls through to its null-pointer branch. (A fact about the
+model's value type, not about the C++: see NOTES-p0102.) -/
+theorem evalBin_hazard_witness :
+    (Val.tab Ty.int [] []).tabOk = false ∧ evalBin .lt (.tab Ty.int [] []) (.int 0) = .haz .nullDeref ∧
+    evalBin .add (.tab Ty.int [] []) (.int 0) = .haz .nullDeref := ⟨rfl, rfl, rfl⟩
+
+/-- `== != and or xor` do not use a typed accessor: no hazard for ANY operands, ill-formed ones included. -/
+theorem evalBin_no_hazard_unconditional (op : BinOp) (hop : op = .eq ∨ op = .ne ∨ op = .band ∨ op = .bior ∨ op = .bxor)
+    (a b : Val) (same : Bool) : (evalBin op a b same).isHazard = false := by
+  rcases hop with rfl | rfl | rfl | rfl | rfl
+  · rcases opEq_total same a b with ⟨v, h, _⟩ | h <;> simp only [evalBin, h] <;> rfl
+  · rcases opNe_total same a b with ⟨v, h, _⟩ | h <;> simp only [evalBin, h] <;> rfl
+  · exact opBand_no_hazard a (fun _ => .ok b) rfl
+  · exact opBior_no_hazard a (fun _ => .ok b) rfl
+  · exact opBxor_no_hazard a b
+
+example : evalBin .eq (.tab Ty.int [] []) (.int 0) = .ok (.bool false) := rfl
+
+/-- Laziness does not matter: `and` / `or` with an arbitrary computation as second operand reach a hazard only if
+that computation does. -/
+theorem logic_lazy_no_hazard (a : Val) (t : Unit → Res Val) (h : (t ()).isHazard = false) :
+    (opBand a t).isHazard = false ∧ (opBior a t).isHazard = false :=
+  ⟨opBand_no_hazard a t h, opBior_no_hazard a t h⟩
+
+/-- Results stay well-formed: whatever a binary / unary operator returns is again a value satisfying the
+representation invariant (it is one of the operands, a null of the second operand's type, or a fresh scalar). -/
+theorem evalBin_ok_tabOk (op : BinOp) (a b v : Val) (same : Bool) (ha : a.tabOk = true) (hb : b.tabOk = true)
+    (h : evalBin op a b same = .ok v) : v.tabOk = true :=
+  (evalBin_prov op a b same v h).tabOk ha hb
+
+theorem evalUn_ok_tabOk (op : UnOp) (a v : Val) (ha : a.tabOk = true) (h : evalUn op a = .ok v) : v.tabOk = true := by
+  rcases evalUn_prov op a v h with rfl | h
+  · exact ha
+  · exact Val.tabOk_of_wf (fresh_wf h)
+
+example : evalBin .add (.null Ty.none) (.str [97]) = .ok (.str [97]) := rfl
+
+/-- **Lifting to expression trees.** An expression built from constants, variables and the unary / binary operators
+(`LExpr`, evaluated by the value-level evaluator `LExpr.pure` of Model/Store.lean, `and`/`or` short-circuiting as in
+op_band.cpp / op_bior.cpp), over variable and constant cells holding well-formed values, never reaches a hazard —
+and its value, when there is one, is well-formed again. For ALL expression trees and ALL such environments. -/
+theorem pure_no_hazard (vars csts : List Val) (hv : ∀ v ∈ vars, v.tabOk = true) (hc : ∀ v ∈ csts, v.tabOk = true)
+    (e : LExpr) :
+    (LExpr.pure vars csts e).isHazard = false ∧ ∀ v, LExpr.pure vars csts e = .ok v → v.tabOk = true := by
+  induction e with
+  | cst i =>
+    refine ⟨rfl, fun v h => ?_⟩
+    simp only [LExpr.pure, Res.ok.injEq] at h
+    subst h
+    exact getD_tabOk csts i hc
+  | var i =>
+    refine ⟨rfl, fun v h => ?_⟩
+    simp only [LExpr.pure, Res.ok.injEq] at h
+    subst h
+    exact getD_tabOk vars i hv
+  | un op e ih =>
+    simp only [LExpr.pure]
+    cases he : LExpr.pure vars csts e with
+    | ok v1 =>
+      have h1 := ih.2 v1 he
+      exact ⟨evalUn_no_hazard op v1, fun v h => evalUn_ok_tabOk op v1 v h1 h⟩
+    | err c x => exact ⟨rfl, fun v h => by cases h⟩
+    | haz h => rw [he] at ih; exact absurd ih.1 (by simp [Res.isHazard])
+    | unmodelled => exact ⟨rfl, fun v h => by cases h⟩
+  | bin op a b iha ihb =>
+    simp only [LExpr.pure]
+    cases hea : LExpr.pure vars csts a with
+    | ok v1 =>
+      have h1 := iha.2 v1 hea
+      simp only []
+      split
+      · exact ⟨evalBin_no_hazard op v1 _ false h1 rfl, fun v h => evalBin_ok_tabOk op v1 _ v false h1 rfl h⟩
+      · cases heb : LExpr.pure vars csts b with
+        | ok v2 =>
+          have h2 := ihb.2 v2 heb
+          exact ⟨evalBin_no_hazard op v1 v2 false h1 h2, fun v h => evalBin_ok_tabOk op v1 v2 v false h1 h2 h⟩
+        | err c x => exact ⟨rfl, fun v h => by cases h⟩
+        | haz h => rw [heb] at ihb; exact absurd ihb.1 (by simp [Res.isHazard])
+        | unmodelled => exact ⟨rfl, fun v h => by cases h⟩
+    | err c x => exact ⟨rfl, fun v h => by cases h⟩
+    | haz h => rw [hea] at iha; exact absurd iha.1 (by simp [Res.isHazard])
+    | unmodelled => exact ⟨rfl, fun v h => by cases h⟩
+
+example : LExpr.pure [.int 5] [.null Ty.none, .int 1] (.bin .add (.cst 1) (.un .neg (.var 0))) = .ok (.int (-4)) := by rfl
+
+
+/-! ### built-in functions (Model/Builtins.lean, run in the `Res` monad) -/
+
+/-- **Built-ins never reach a hazard** — `lsubstr rsubstr strpos replace trim ltrim rtrim upper lower strlen tokenize hash
+chr raw int b64enc b64dec str` (every modelled built-in but the three named below): for ANY number of arguments, each an
+arbitrary computation that does not itself reach a hazard and whose value is well-formed (`ArgsOk`), the outcome is a
+value, a BLOC runtime error or an unmodelled cell, never a hazard: no typed accessor is applied to a null
+(fix "null_number_builtins"), every decimal→integer conversion is range-checked (`castToInt`; `int(decimal)`:
+`intOfDecimal_no_hazard`, fix "int_of_decimal_range"). Excluded: `substr`, `subraw`, `hex`, whose index arithmetic is
+signed and unguarded in the C++ (known findings C01.bi.substr.overflow, C01.bi.subraw.overflow, C01.bi.hex.overflow). -/
+theorem evalBuiltin_no_hazard_partial (fmt : Num.F64 → Bytes) (name : String) (args : List (Res Val)) (r : Res Val)
+    (hn : name ≠ "substr" ∧ name ≠ "subraw" ∧ name ≠ "hex") (h : ArgsOk args)
+    (hr : evalBuiltin (m := Res) fmt name args = some r) : r.isHazard = false :=
+  evalBuiltin_no_hazard_of fmt name args r hn h hr
+
+example : evalBuiltin (m := Res) (fun _ => []) "chr" [.ok (.num 0x7ff8000000000000)] = some (.err Gen.EXC_RT_OUT_OF_RANGE) := rfl
+example : ArgsOk [.ok (.null Ty.num), .err 5 []] := by
+  intro t ht
+  simp only [List.mem_cons, List.mem_nil_iff, or_false] at ht
+  rcases ht with rfl | rfl
+  · exact ⟨rfl, fun v hv => by cases hv; rfl⟩
+  · exact ⟨rfl, fun v hv => by cases hv⟩
+
+/-- The full statement is false for `substr`, `subraw`, `hex`: the recorded witnesses reach a signed overflow in the
+model exactly as UBSan reports it on the pinned build (`c - a` after `a = a + c` with a = INT64_MIN; `n += 1` at
+INT64_MAX). -/
+theorem evalBuiltin_hazard_witness :
+    biSubstr (m := Res) [.ok (.str [97, 98]), .ok (.int (-9223372036854775808))] = .haz .signedOverflow ∧
+    biSubraw (m := Res) [.ok (.raw [97, 98]), .ok (.int (-9223372036854775808))] = .haz .signedOverflow ∧
+    biHex (m := Res) [.ok (.int 0), .ok (.int 9223372036854775807)] = .haz .signedOverflow := ⟨rfl, rfl, rfl⟩
+
+/-- `int(decimal)` (builtin_int.cpp after the repair of the range test): the hazard branch of the model — the C cast
+of a non-finite double — is unreachable, for every bit pattern. -/
+theorem int_of_decimal_no_hazard (b : Num.F64) : (Num.intOfDecimal b).isHazard = false := intOfDecimal_no_hazard b
+
+example : Num.intOfDecimal 0x7ff0000000000000 = .err Gen.EXC_RT_OUT_OF_RANGE := by decide
+example : Num.intOfDecimal 0xc3e0000000000000 = .ok (-9223372036854775808) := by decide
 
 end BlocV.C01
